@@ -372,9 +372,10 @@ func quickReturns(res *core.Result, info *types.Info, fd *ast.FuncDecl, name str
 					all = false
 				}
 			}
-			if all {
+			if all || scalarOnly(x) {
 				continue
 			}
+			return
 		case *ast.IfStmt:
 			if x.Else == nil && exitsOnly(x.Body.List) {
 				break
@@ -441,7 +442,7 @@ func isZeroConst(v constant.Value) bool {
 
 // scalarOnly reports whether an if/else chain only assigns to plain
 // identifiers (lenX = n, ...), so that it cannot touch an operand.
-func scalarOnly(is *ast.IfStmt) bool {
+func scalarOnly(is ast.Stmt) bool {
 	ok := true
 	ast.Inspect(is, func(n ast.Node) bool {
 		switch x := n.(type) {
